@@ -57,10 +57,10 @@ for pid,(lvl,text,ref) in desc.items():
 hooks=subprocess.run(['git','-C','/repo','log','--format=%h','--grep=^verif hook'],capture_output=True,text=True).stdout.split()
 m={
  "version":1,
- "setup_cmd":"cd /verif/sim && CARGO_NET_OFFLINE=true cargo build --release --offline",
+ "setup_cmd":"cd /verif/sim && CARGO_NET_OFFLINE=true cargo build --release --offline && CARGO_NET_OFFLINE=true cargo build --profile plain --no-default-features --offline",
  "hooks":{
    "guard":"cargo feature verif-hooks",
-   "enable":"snowsim depends on snow = { path = \"/repo\", features = [\"ring-resolver\", \"use-p256\", \"use-xchacha20poly1305\", \"verif-hooks\", \"risky-raw-split\"] } with overflow-checks and debug-assertions switched on for the snow package",
+   "enable":"snowsim's default cargo feature `hooks` = [\"snow/verif-hooks\"] (next to `rawsplit` = [\"snow/risky-raw-split\"]) on top of snow = { path = \"/repo\", features = [\"ring-resolver\", \"use-p256\", \"use-xchacha20poly1305\"] }, with overflow-checks and debug-assertions switched on for the snow package; a second build (cargo profile plain, --no-default-features) compiles snow without verif-hooks / risky-raw-split and without debug assertions / overflow checks, i.e. as a user's release build, and every check re-runs at a quarter of its scale on it",
    "baseline_off_cmd":"cd /repo && cargo test --workspace --no-fail-fast --offline",
    "source_commits":hooks,
    "add_only":True
